@@ -860,9 +860,21 @@ class C20(Property):
                     'T%d' % d['total'], 'I' + pairs(d['items']), 'K' + nats(kn(k) for k in d['keys']),
                     'V' + nats(d['values']), 'L%d' % d['len'], 'C%d' % d['common'], 'U%d' % d['uncommon'],
                     'M' + pairs(d['mc']), 'G' + nats(d['gets']), 'H' + nats(d['has']),
-                    'E' + nats(kn(k) for k in d['elements'])] +
+                    'E' + nats(kn(k) for k in d['elements']), self.render_commonality(d)] +
                     (['!reread:' + ','.join(sorted(d['reread']))] if d.get('reread') else [])) for d in o['d']))
         return ';'.join(recs)
+
+    @staticmethod
+    def render_commonality(d):
+        """get_commonality() is a float: rendered as the ratio n/total it stands for (n = the integer nearest to
+        value * total, accepted within 1e-6), `R-` on a counter without additions whatever the code did there"""
+        v, t = d.get('commonality'), d['total']
+        if not t:
+            return 'R-'
+        if v is None or v != v or abs(v) > 2:
+            return 'R?%r' % (v,)
+        n = round(v * t)
+        return 'R%d/%d' % (n, t) if abs(v * t - n) < 1e-6 else 'R?%r' % (v,)
 
     # ------------------------------------------------------------------ oracle (independent of the model)
     def op_additions(self, case, op, last_items):
